@@ -154,6 +154,13 @@ def page_classes():
     # a request WITH A BODY (--post-data) answered with a redirect: 307 / 308 replay the request, 302 turns it into a GET
     for code in (b'302', b'307', b'308'):
         c['rd_%s_post' % code.decode()] = _p(redirect(b'http://a.test/p3', code), argv=['--post-data', 'x=1'])
+    # ordinary answers under output options that change how documents are written
+    c['ok_save_headers'] = _p(resp(), argv=['--save-headers'])
+    c['ok_output_document'] = _p(resp(), argv=['-O', 'all.html'])
+    c['ok_adjust_extension'] = _p(resp(), argv=['-E'], path='/h.php')
+    c['ok_no_directories'] = _p(resp(), argv=['-nd'])
+    c['ok_timestamping'] = _p(resp(headers=(b'Last-Modified: Mon, 01 Jan 2024 00:00:00 GMT',)), argv=['-N'])
+    c['ok_no_clobber'] = _p(resp(), argv=['-nc'])
     # through an HTTP proxy that drops its idle connections (see errorflow_exec: ProxyServer)
     c['px_idle_close'] = _p(resp(close_hdr=False), argv=['--http-proxy', 'proxy.test:3128', '--wait', '1'])
     # the download directory (-P) does not exist yet when the first answer - a redirect, nothing to save - arrives
